@@ -36,9 +36,9 @@ def tree_parts(q, t):
 PROPS["C01"] = {
     "level": "exploration",
     "level_text": "random operation histories (plain/hinted inserts, removals by key/iterator/front/back, clear, copy, assignment, bulk insert; random, ascending, descending, zig-zag and fill-then-drain key orders) against a sorted reference (multi)map with a full comparison after every operation, including find/contains/count for every key of the universe and a key-comparison counter for the depth bound",
-    "level_note": "trusted: the reference model in harness/cont_tree.cpp, the comparison counter in harness/elem.hpp (counts operator<,>,== of the key type), ASan",
+    "level_note": "trusted: the reference model in harness/cont_tree.cpp, the comparison counter in harness/elem.hpp (counts operator<,>,== of the key type), ASan; the AVL structure oracle reads the tree's private fields (-fno-access-control): it checks the mechanism behind the depth bound (parent links, stored height/slope = recomputed, |slope| <= 1, tree order = iteration order) so that a missed re-balance fails at the operation that caused it",
     "technique": "stateful property-based testing against a reference sorted multimap, comparison-counting keys, ddmin shrinking",
-    "rule": "opfuzz: histories of 2..2*size ops over two Map (resp. MultiMap) objects with keys from a small universe; after every op size/isEmpty/forward+backward iteration/front/back/find/contains/count for all keys, returned iterators, addresses and the comparison bound are checked. "
+    "rule": "opfuzz: histories of 2..2*size ops over two Map (resp. MultiMap) objects with keys from a small universe; after every op size/isEmpty/forward+backward iteration/front/back/find/contains/count for all keys, returned iterators, addresses, the comparison bound and the AVL structure invariants are checked. "
             "Non-trivial = (removal of an inner entry at n>=7, i.e. a node with two children is possible, AND a hinted insert that took the hint branch) OR a count() on a key with >=3 entries; distinct by case text hash.",
     "assumptions": ["MultiMap::remove(key) may remove any one entry of that key (the model learns which)", "a hinted MultiMap insert may land anywhere inside its equal-key run"],
     "parts": tree_parts({"cases": 60000, "maxsize": 30}, {"cases": 600000, "maxsize": 150, "workers": 16}),
@@ -214,8 +214,8 @@ PROPS["C09"] = {
     "level_text": "(handles) random single-threaded histories of copy / assign (incl. self) / swap / modify / destroy over String, Variant, Xml::Variant and RefCount::Ptr handles against a value model under ASan and the allocation ledger; (threads) 2-4 logical threads, each owning its handles to a common payload, run generated programs under sampled schedules of the deterministic scheduler (uniform, few preemptions, PCT, round robin), with decision points at every atomic / volatile access; a quarantining ledger reports double release, write after release and leaks exactly",
     "level_note": "trusted: vsched/rt.cpp (sequentially consistent interleaving at instrumented granularity: atomics, volatile accesses, synchronisation calls), the ledger in engine/pbt.hpp, thread-local value models; weak-memory reorderings are out of reach; schedules are sampled, not enumerated",
     "technique": "stateful property-based testing (single thread) plus randomised deterministic scheduling of generated thread programs (schedule = generated input)",
-    "rule": "threads: case = kind of handle (String, Variant string, Variant list, RefCount::Ptr, Xml::Variant), 2-4 threads, per-thread op lists over 3 handle slots (copy, destroy, assign, modify, read), 12 schedules per case (60 when replaying). Oracle: every handle always reads the value its own thread gave it, objects are destroyed exactly once, no double free / write after free / leak, no deadlock. "
-            "Non-trivial(threads) = some schedule of the case had two consecutive operations on the same reference counter by different threads. handles: 5 handle slots of one kind, ops make / copy / assign (incl. self) / swap (Variant::swap, Ptr::swap) / modify / destroy / raw pointer assignment; every handle reads its model value after every op, RefCount objects are destroyed exactly when their last handle goes; non-trivial(handles) = a swap or assignment between handles of different payloads followed by a destruction; distinct by case text hash.",
+    "rule": "threads: case = kind of handle (String, Variant string, Variant list, RefCount::Ptr, Xml::Variant), 2-4 threads, per-thread op lists over 3 handle slots (copy, destroy, assign, modify, read, clear), 12 schedules per case (60 when replaying). Oracle: every handle always reads the value its own thread gave it, objects are destroyed exactly once, no double free / write after free / leak, no deadlock. "
+            "Non-trivial(threads) = some schedule of the case had two consecutive operations on the same reference counter by different threads. handles: 5 handle slots of one kind, ops make / copy / assign (incl. self) / swap (Variant::swap, Ptr::swap) / modify / clear / destroy / raw pointer assignment; every handle reads its model value after every op, RefCount objects are destroyed exactly when their last handle goes; non-trivial(handles) = a swap or assignment between handles of different payloads followed by a destruction; distinct by case text hash.",
     "assumptions": ["each handle is used by one thread only (the statement's proviso)", "sequential consistency"],
     "parts": [opf("handles", ["harness/c09_handles.cpp"], {"cases": 300000, "maxsize": 30}, {"cases": 3000000, "maxsize": 60, "workers": 16}),
               opf("threads", ["harness/c09_threads.cpp"], {"cases": 5000, "maxsize": 14}, {"cases": 80000, "maxsize": 24, "workers": 16}, flavour="sched", deps=["harness/vs_common.hpp"])],
@@ -228,7 +228,7 @@ PROPS["C10"] = {
     "level_text": "1-3 client threads, each with a Future<void>, a Future<int> and a Future<String>, run generated programs (start with 0-3 arguments and member functions, join, result conversion, destroy, abort, state queries, virtual sleeps that open the worker-retirement window) against freshly installed worker pools of generated size (min 0-2, max 3-5, queue capacity 1/2/4/256; 15% of the cases use the lazily created global pool) under sampled schedules of the deterministic scheduler; decision points at every atomic / volatile access of the lock-free queue, the FastSignal flags and the Signal / Mutex calls",
     "level_note": "trusted: vsched/rt.cpp (sequential consistency at instrumented granularity, virtual time, modelled pthread primitives), execution counters of the started functions; the harness TU includes src/Future.cpp with -fno-access-control to construct pools; schedules are sampled; 'eventually' = no deadlock verdict and completion within the step bound (a step-bound hit is inconclusive)",
     "technique": "randomised deterministic scheduling (schedule = generated input) of generated client programs over generated pool configurations, with execution-count and result oracles and deadlock detection",
-    "rule": "case = pool configuration, 1-3 client programs, 6 schedules (40 when replaying) cycling through uniform / few-preemptions / PCT / round-robin strategies. Oracle: when join / destructor / conversion / restart returns the call has run exactly once with the given arguments, the converted value is the function's return value, isAborted() only after abort(), otherwise isFinished(); at the end every call ran exactly once; no deadlock; nothing leaked after the pool is destroyed. "
+    "rule": "case = pool configuration, 1-3 client programs, 6 schedules (40 when replaying) cycling through uniform / few-preemptions / PCT / round-robin strategies. Oracle: when join / destructor / conversion / restart returns the call has run exactly once with the given arguments, the converted value is the function's return value, isAborted() only after abort(), otherwise isFinished(); at the end every call ran exactly once; no deadlock and no livelock (a thread polling for ever while nobody else can run, e.g. on the pool-creation spin lock); nothing leaked after the pool is destroyed. 20% of the cases are grow / idle past the retirement time / start-together scenarios over several rounds. "
             "Non-trivial = (>=2 clients AND queue capacity <=2 AND >=4 starts: pushes meet a full queue and workers race clients) OR a case that sleeps past the idle-worker retirement time between starts; distinct by case text hash.",
     "assumptions": ["started functions terminate and do not wait on other futures", "a Future object is used by one client thread"],
     "parts": [opf("future", ["harness/c10_future.cpp"], {"cases": 5000, "maxsize": 22}, {"cases": 40000, "maxsize": 24, "workers": 16}, flavour="sched", cflags=["-fno-access-control"], deps=["harness/vs_common.hpp"])],
